@@ -79,19 +79,16 @@ class C21(LLCheck):
                   winsize=rng.choice([1, 2]), winoffset=rng.choice([0, 1, 3]))
         if where == "low":
             return connected(None, **kw) + [rng.choice(["ev 0", "ev 2", "ev 16"]) for _ in range(rng.randrange(0, 4))], kw
-        # near the wrap of the 16 bit counter: skip 500 events at a time, then change to the wanted latency
+        # near the wrap of the 16 bit counter: skip 500 events at a time ( 131 x 500: the planned counter is 65500 ), then
+        # change to the wanted latency with a connection update
         kw499 = dict(kw, interval=6, latency=499, timeout=3200)
-        ops = connected(None, **kw499) + ["ev 0"] * 130          # planned counter 65001
+        ops = connected(None, **kw499) + ["ev 0"] * 130          # planned counter 65500
         if la != 499:
-            ops += ["ev 2 " + upd(65004, ws=1, wo=0, iv=iv, la=la, to=supervision(iv, la)), "ev 2", "ev 2", "ev 2"]
+            ops += ["ev 2 " + upd(65503, ws=1, wo=0, iv=iv, la=la, to=supervision(iv, la)), "ev 2", "ev 2", "ev 2"]
             kw = dict(kw, interval=iv)
         else:
             kw = kw499
         return ops, kw
-
-    def aim(self, rng, ops, target):
-        """append listening events (one counter step each) until the planned counter is `target` (mod 65536); closed loop"""
-        return ops
 
     def tail(self, rng, dist, la, kind, heavy):
         """what happens after the PDU was delivered: events, lost events, traffic, cancelation"""
@@ -157,7 +154,7 @@ class C21(LLCheck):
                 continue
             if target is not None:
                 steps = (target - c) % 65536
-                if steps > 600:
+                if steps > 100:
                     continue
                 pre = pre + ["ev 2"] * steps
                 c = target
